@@ -139,7 +139,9 @@ M.contract('contracts.C13_filter:implements_interval_interface',
            raises_only=())
 
 M.contract(P_INTERVALS + ':point', params=dict(x=Int), ghosts=dict(n=Int), returns=ANY_INTERVAL,
-           ensures={'exact': lambda x, n, result: iff(mem(result, n), n == x) and wf(result)}, raises_only=())
+           ensures={'exact': lambda x, n, result: iff(mem(result, n), n == x) and wf(result),
+                    'inversion-covers-the-complement': lambda x, n, result:
+                    wf(result.inversion) and implies(n != x, mem(result.inversion, n))}, raises_only=())
 
 M.contract(P_INTERVALS + ':unlimited_with_finite_inversion',
            params=dict(finite_negation=ANY_INTERVAL), ghosts=dict(n=Int), returns=ANY_INTERVAL,
@@ -495,3 +497,152 @@ M.contract(P_MI + ':interval_of',
 
 M.contract(P_MI + ':no_adaption', params=dict(x=ANY_INTERVAL), inline=True,
            ensures={'identity': lambda x, result: result is x}, raises_only=())
+
+# ------------------------------------------------------------------------------ accept() dispatchers
+# Close the induction: for every matcher class the code knows, accept(visitor) yields what the
+# induction hypothesis `_accept` assumes of an opaque matcher.
+
+from exactly_lib.impls.types.matcher.impls import constant as constant_matcher
+from exactly_lib.impls.types.matcher.impls import comparison_matcher
+from exactly_lib.impls.types.matcher import property_matcher
+from exactly_lib.impls.types.line_matcher import model_construction, line_nums_interval
+from exactly_lib.impls.types.line_matcher.impl import line_number
+from exactly_lib.type_val_prims.matcher.line_matcher import FIRST_LINE_NUMBER
+
+_D_base = D
+
+
+def D(m, n):  # noqa: F811  (extends the denotation to the constant matcher)
+    if (not is_opaque(m)) and isinstance(m, constant_matcher.MatcherWithConstantResult):
+        return m._result
+    return _D_base(m, n)
+
+
+def _visitor_sound(visitor, holds, result, n):
+    if isinstance(visitor, matcher_interval._IntervalComputer):
+        return sound(visitor._interval_adaption, holds, result, n)
+    return sound(visitor._matcher_evaluator.__self__._interval_adaption, not holds, result, n)
+
+
+VISITOR = Union(COMPUTER, NEG_EVALUATOR)
+
+_P_COMBI = 'exactly_lib.impls.types.matcher.impls.combinator_matchers'
+
+M.contract('exactly_lib.impls.types.matcher.impls.constant:MatcherWithConstantResult.accept',
+           params=dict(self=Inst(constant_matcher.MatcherWithConstantResult, _result=Bool), visitor=VISITOR),
+           ghosts=dict(n=Int), returns=ANY_INTERVAL,
+           ensures={'as-the-induction-hypothesis-assumes': lambda self, visitor, result, n:
+           _visitor_sound(visitor, D(self, n), result, n)}, raises_only=())
+
+M.contract(_P_COMBI + ':Negation.accept',
+           params=dict(self=Inst(combinator_matchers.Negation, _negated=MATCHER), visitor=VISITOR),
+           ghosts=dict(n=Int), returns=ANY_INTERVAL,
+           ensures={'as-the-induction-hypothesis-assumes': lambda self, visitor, result, n:
+           _visitor_sound(visitor, D(self, n), result, n)}, raises_only=())
+
+M.contract(_P_COMBI + ':Conjunction.accept',
+           params=dict(self=Inst(combinator_matchers.Conjunction, _operands=OPERANDS), visitor=VISITOR),
+           ghosts=dict(n=Int), returns=ANY_INTERVAL,
+           ensures={'as-the-induction-hypothesis-assumes': lambda self, visitor, result, n:
+           _visitor_sound(visitor, D(self, n), result, n)}, raises_only=())
+
+M.contract(_P_COMBI + ':Disjunction.accept',
+           params=dict(self=Inst(combinator_matchers.Disjunction, _operands=OPERANDS), visitor=VISITOR),
+           ghosts=dict(n=Int), returns=ANY_INTERVAL,
+           ensures={'as-the-induction-hypothesis-assumes': lambda self, visitor, result, n:
+           _visitor_sound(visitor, D(self, n), result, n)}, raises_only=())
+
+M.contract('exactly_lib.type_val_prims.matcher.matcher_base_class:MatcherWTrace.accept',
+           params=dict(self=MATCHER, visitor=VISITOR),
+           ghosts=dict(n=Int), returns=ANY_INTERVAL,
+           ensures={'as-the-induction-hypothesis-assumes': lambda self, visitor, result, n:
+           _visitor_sound(visitor, D(self, n), result, n)}, raises_only=())
+
+# ------------------------------------------------------------------------------ leaves with an interval
+
+
+class RendererI(Interface):
+    methods = {'__call__': Method(returns=Any_)}
+
+
+_INT_COMPARISON = Inst(comparison_matcher.IntComparisonMatcher,
+                       _operator=OneOf(*comparators.ALL_OPERATORS), _rhs=Int,
+                       _rhs_syntax_element=Any_, _model_renderer=Iface(RendererI))
+
+M.contract('exactly_lib.impls.types.matcher.impls.comparison_matcher:ComparisonMatcher.matches_w_trace',
+           params=dict(self=_INT_COMPARISON, model=Int),
+           ensures={'value-is-the-comparison': lambda self, model, result:
+           result.value == bool(self._operator.operator_fun(model, self._rhs))}, raises_only=())
+
+M.contract('exactly_lib.impls.types.matcher.impls.comparison_matcher:IntComparisonMatcher.interval',
+           params=dict(self=_INT_COMPARISON), ghosts=dict(n=Int), returns=ANY_INTERVAL,
+           ensures={'sound-for-the-comparison': lambda self, result, n:
+           sound(matcher_interval.no_adaption, bool(self._operator.operator_fun(n, self._rhs)), result, n)},
+           raises_only=())
+
+
+@M.check('operators')
+def _operators(ctx):
+    import operator as op
+    expected = {'==': op.eq, '!=': op.ne, '<': op.lt, '<=': op.le, '>': op.gt, '>=': op.ge}
+    got = {o.name: o.operator_fun for o in comparators.ALL_OPERATORS}
+    ctx.obligation('ALL_OPERATORS are the six comparison operators with their Python meaning',
+                   got == expected, 'enumeration', detail={'names': sorted(got)})
+
+
+M.contract('exactly_lib.impls.types.line_matcher.impl.line_number:_get_int_interval_of_int_matcher',
+           params=dict(matcher=MATCHER), ghosts=dict(n=Int), returns=ANY_INTERVAL,
+           ensures={'sound': lambda matcher, result, n: sound(matcher_interval.no_adaption, D(matcher, n), result, n)},
+           raises_only=())
+
+M.contract('exactly_lib.impls.types.line_matcher.impl.line_number:_PropertyGetter.get_from',
+           params=dict(self=Inst(line_number._PropertyGetter), model=FixedList(Int, Str, as_tuple=True)),
+           inline=True, ensures={'the-line-number': lambda model, result: result == model[0]}, raises_only=())
+
+M.contract('exactly_lib.impls.types.matcher.property_matcher:PropertyMatcherWithIntInterval.interval',
+           params=dict(self=Inst(property_matcher.PropertyMatcherWithIntInterval,
+                                 _matcher=MATCHER,
+                                 _get_int_interval_of_prop_matcher=Const(line_number._get_int_interval_of_int_matcher),
+                                 _property_getter=Inst(line_number._PropertyGetter), _describer=Any_,
+                                 _structure=Any_)),
+           ghosts=dict(n=Int), returns=ANY_INTERVAL,
+           ensures={'line-num M has the interval of M': lambda self, result, n:
+           sound(matcher_interval.no_adaption, D(self._matcher, n), result, n)},
+           raises_only=())
+
+# ------------------------------------------------------------------------------ adaptation to line numbers
+
+_dom_base = dom
+
+
+def dom(adaption, n):  # noqa: F811
+    if adaption is model_construction.adapt_to_line_num_range:
+        return n >= FIRST_LINE_NUMBER
+    return _dom_base(adaption, n)
+
+
+M.contract('exactly_lib.impls.types.line_matcher.model_construction:_adapt_limit', params=dict(limit=Int), inline=True,
+           ensures={'max-with-first-line': lambda limit, result: result == (limit if limit >= 1 else 1)},
+           raises_only=())
+
+M.contract('exactly_lib.impls.types.line_matcher.model_construction:adapt_to_line_num_range',
+           params=dict(interval=ANY_INTERVAL), ghosts=dict(n=Int), returns=ANY_INTERVAL,
+           ensures={
+               'loses-no-line-number': lambda interval, result, n:
+               implies(n >= FIRST_LINE_NUMBER and mem(interval, n), mem(result, n)),
+               'adapted': lambda result: wf(result) and (result.is_empty or (
+                       (result.lower is None or result.lower > FIRST_LINE_NUMBER)
+                       and (result.upper is None or result.upper >= FIRST_LINE_NUMBER))),
+           }, raises_only=())
+
+
+def is_adapted(x):
+    return wf(x) and (x.is_empty or ((x.lower is None or x.lower > FIRST_LINE_NUMBER)
+                                     and (x.upper is None or x.upper >= FIRST_LINE_NUMBER)))
+
+
+M.contract('exactly_lib.impls.types.line_matcher.line_nums_interval:interval_of_matcher',
+           params=dict(matcher=MATCHER), ghosts=dict(n=Int), returns=Iface(PlainIntervalI),
+           ensures={'covers-every-accepted-line-number': lambda matcher, result, n:
+           implies(n >= FIRST_LINE_NUMBER and D(matcher, n), mem(result, n))},
+           raises_only=())
